@@ -307,3 +307,17 @@ def write_file(path, data, mode=None):
 def read_file(path):
     with open(path, "rb") as f:
         return f.read()
+
+def pin_process_nondeterminism(seed=0):
+    """Inside a worker child: pin the process-global sources of nondeterminism
+    that leak into produced bytes -- gzip header timestamps and tempfile names."""
+    import gzip, tempfile, types, random
+    gzip.time = types.SimpleNamespace(time=lambda: 1_500_000_000.0)
+    ns = tempfile._RandomNameSequence()
+    ns._rng = random.Random(seed)
+    ns._rng_pid = os.getpid()
+    tempfile._name_sequence = ns
+
+def scratch_case_dir(prefix):
+    """Scratch directory whose path length does not depend on the pid."""
+    return scratch_dir("%s-%07d" % (prefix, os.getpid()))
